@@ -160,11 +160,22 @@ func runC13(r *rt.Run, tier string) {
 		}
 	}
 
+	// the object handed to the library may be bytes.Reader-like (ReaderAt plus
+	// Read/Seek/Len) and may have been read sequentially before (magic sniffed,
+	// checksummed): ReadAt-based iteration must not care
+	var ra io.ReaderAt = disk
+	if t.Bool(1, 4, "c13.seqflavour") {
+		s := simdisk.Seq{Disk: disk}
+		buf := make([]byte, []int{8, 64, len(img) + 1}[t.Draw(3, "c13.sniff")])
+		s.Read(buf)
+		ra = s
+		r.Probe("reader-with-sequential-state")
+	}
 	var loadErr, nextErr error
 	iterTask = r.Go("I", func() {
-		ar, err := deb.LoadAr(disk)
+		ar, err := deb.LoadAr(ra)
 		if err != nil && transient {
-			ar, err = deb.LoadAr(disk)
+			ar, err = deb.LoadAr(ra)
 		}
 		if err != nil {
 			loadErr = err
@@ -213,7 +224,48 @@ func runC13(r *rt.Run, tier string) {
 		}
 		nextErr = fmt.Errorf("iterator did not end")
 	})
+	// a second, unrelated archive iterated by another caller at the same time
+	var ms2 []*arMember
+	var got2 []string
+	var end2 error
+	var iter2 *rt.Task
+	if !faulty && !transient && t.Bool(1, 3, "c13.second-archive") {
+		ms2 = genArMembers(t, r, 4)
+		img2 := renderAr(ms2)
+		d2 := simdisk.New(r, "archive2", img2)
+		d2.YieldAfter = true
+		disk.YieldAfter = true
+		r.Probe("two-archives-iterated-concurrently")
+		iter2 = r.Go("I2", func() {
+			ar, err := deb.LoadAr(d2)
+			if err != nil {
+				end2 = err
+				return
+			}
+			for i := 0; i <= len(ms2)+2; i++ {
+				e, err := ar.Next()
+				if err != nil {
+					end2 = err
+					return
+				}
+				got2 = append(got2, fmt.Sprintf("%s/%d", e.Name, e.Size))
+			}
+		})
+	}
 	r.Sched()
+	if iter2 != nil {
+		if iter2.Panic != nil {
+			r.Violate("C13/panic", "second-iterator", "panic: %v", iter2.Panic)
+			return
+		}
+		want2 := []string{}
+		for _, m := range ms2 {
+			want2 = append(want2, fmt.Sprintf("%s/%d", m.Name, len(m.Data)))
+		}
+		if fmt.Sprint(got2) != fmt.Sprint(want2) || end2 != io.EOF {
+			r.Violate("C13/metadata-mismatch", "second-archive-iterated-concurrently", "a second archive iterated at the same time returned %v (end: %v), it holds %v", got2, end2, want2)
+		}
+	}
 
 	if iterTask.Panic != nil {
 		r.Violate("C13/panic", "iterator", "panic: %v\n%s", iterTask.Panic, trimStack(iterTask.PanicStack))
@@ -300,5 +352,5 @@ func init() {
 		},
 		Assumptions: []string{"per-operation equality with the sequential member-list model is the complete check because iterator and member readers are independent objects over one immutable ReaderAt (no linearizability search needed)"},
 	})
-	propProbes["C13"] = []string{"zero-length-member", "odd-member-followed-by-another", "16-byte-name", "third-member-after-an-odd-one", "eof-eager-full-read-at-end-of-file", "reader-op-overlapped-a-Next", "odd-last-member-without-pad", "blank-numeric-column", "data-looks-like-header", "name-with-trailing-slash", "name-with-interior-slash", "zero-padded-numeric-columns", "Next-retried-after-transient-error"}
+	propProbes["C13"] = []string{"zero-length-member", "odd-member-followed-by-another", "16-byte-name", "third-member-after-an-odd-one", "eof-eager-full-read-at-end-of-file", "reader-op-overlapped-a-Next", "odd-last-member-without-pad", "blank-numeric-column", "data-looks-like-header", "name-with-trailing-slash", "name-with-interior-slash", "zero-padded-numeric-columns", "Next-retried-after-transient-error", "reader-with-sequential-state", "two-archives-iterated-concurrently"}
 }
